@@ -792,6 +792,10 @@ class Spectrum(Generic[_TData]):
 
     @classmethod
     def _unpickle(cls, args: tuple[Any, ...], kwargs: dict[str, Any]) -> Self:
+        data, dtype = kwargs.get("data"), args[-1]
+        if isinstance(data, np.ndarray) and data.dtype != dtype:
+            # Pickle protocols below 5 store an array of non-native byte order as a native one.
+            kwargs = {**kwargs, "data": data.astype(dtype)}
         return cls(*args, **kwargs)
 
     def __reduce_ex__(self, protocol: SupportsIndex, /) -> tuple[Any, ...]:
